@@ -282,6 +282,85 @@ func c15long(rate, burst int, gap time.Duration, size, n int) *explore.Scenario 
 	return sc
 }
 
+// c15twoPaths: two threads hand datagrams to one filter (a router with two senders does this).  A backlogged
+// filter, gaps of a third of the bucket's fill time; the envelope is judged whenever only ARRIVAL threads were
+// held up (a sender that is slow to hand over only delays its datagram; what must not happen is that time is
+// credited twice).
+func c15twoPaths(rate, burst, bound int) *explore.Scenario {
+	sc := &explore.Scenario{Name: fmt.Sprintf("tbf rate=%d burst=%d, two arrival paths", rate, burst), Bound: bound}
+	sc.Cfg.Horizon = 60 * time.Second
+	third := time.Duration(float64(burst) / (float64(rate) / 8) * 0.3 * float64(time.Second))
+	sc.Make = func() (func(), func(*zzvsched.Exec) (string, *explore.Violation)) {
+		rec := vnet.ZZNewRecNIC()
+		done := 0
+		var t0 time.Duration
+		body := func() {
+			t0 = zzvsched.Elapsed()
+			f, err := vnet.NewTokenBucketFilter(rec, vnet.TBFRate(rate), vnet.TBFMaxBurst(burst), vnet.TBFQueueSizeInBytes(50000))
+			if err != nil {
+				panic(err)
+			}
+			zzvsched.WaitIdle()
+			// let the bucket fill completely (it starts with 100 ms worth of tokens), empty it with one burst-sized
+			// datagram and leave a backlog that soaks up every credit for the rest of the run
+			zzvsched.Sleep(time.Duration(float64(burst) / (float64(rate) / 8) * 1.2 * float64(time.Second)))
+			vnet.ZZPush(f, vnet.ZZUDPChunk("10.0.0.1:1", "10.0.0.2:1000", make([]byte, burst)))
+			for k := 1; k <= 6; k++ {
+				vnet.ZZPush(f, vnet.ZZUDPChunk("10.0.0.1:1", fmt.Sprintf("10.0.0.2:%d", 1000+k), make([]byte, burst/4)))
+			}
+			// path 0 hands over a datagram every third of the fill time, path 1 only one (it may be slow about it)
+			zzvsched.GoNamed("arrive0", func() {
+				for k := 0; k < 3; k++ {
+					zzvsched.Sleep(third)
+					vnet.ZZPush(f, vnet.ZZUDPChunk("10.0.0.1:1", fmt.Sprintf("10.0.0.2:%d", 2000+k), make([]byte, 1)))
+				}
+				done++
+			})
+			zzvsched.GoNamed("arrive1", func() {
+				zzvsched.Sleep(third)
+				vnet.ZZPush(f, vnet.ZZUDPChunk("10.0.0.1:1", "10.0.0.2:3000", make([]byte, 1)))
+				done++
+			})
+			zzvsched.WaitIdle()
+		}
+		check := func(ex *zzvsched.Exec) (string, *explore.Violation) {
+			out := fmt.Sprintf("forwarded %d", len(rec.Got))
+			if len(ex.Panics) > 0 {
+				return out, &explore.Violation{Sig: "C15 panic", Msg: sc.Name + ": panic: " + ex.Panics[0].Value}
+			}
+			if ex.HorizonHit {
+				return out + " HORIZON", nil
+			}
+			if done != 2 {
+				return out, &explore.Violation{Sig: "C15 blocked", Msg: sc.Name + fmt.Sprint(": an arrival path blocked: ", ex.Parked)}
+			}
+			for _, n := range ex.Stalled {
+				// harmless: an arrival thread that is slow to hand over, and the filter's loop while it merely waits
+				// to receive the next datagram (the hand-over needs both)
+				if !strings.HasPrefix(n, "arrive") && !strings.HasSuffix(n, "@select") {
+					return out + " (filter loop stalled)", nil // see c15scenario: output compression by a stalled loop is not the filter's doing
+				}
+			}
+			// ideal bucket: full when the filter is created, charged for everything forwarded
+			tokens, last := float64(burst), t0
+			for i, g := range rec.Got {
+				tokens += float64(rate) / 8 * (g.At - last).Seconds()
+				if tokens > float64(burst) {
+					tokens = float64(burst)
+				}
+				last = g.At
+				tokens -= float64(len(g.Payload))
+				if tokens < -1e-6 {
+					return out, &explore.Violation{Sig: "C15 envelope-exceeded two-paths", Msg: fmt.Sprintf("%s: after forwarding datagram %d (%d B, to %s) at %v an ideal bucket of %d B refilled at %d bit/s would be overdrawn by %.1f B: some interval carried more than burst + rate x length", sc.Name, i, len(g.Payload), g.Dst, g.At, burst, rate, -tokens)}
+				}
+			}
+			return out, nil
+		}
+		return body, check
+	}
+	return sc
+}
+
 func init() {
 	register(&Check{ID: "C15", YieldOnRelease: true,
 		Scenarios: func(tier string) []*explore.Scenario {
@@ -304,6 +383,7 @@ func init() {
 					out = append(out, c15scenario(c15cfg{rate: r, burst: b, queue: 50000, n: n - 1, setter: "close-concurrent", bound: 1}))
 				}
 			}
+			out = append(out, c15twoPaths(8*vnet.KBit, 1000, 2), c15twoPaths(1*vnet.MBit, 8000, 2))
 			// long regular streams: gaps that give a fractional per-arrival credit in every direction
 			ln := 1500
 			if tier == "thorough" {
@@ -319,7 +399,7 @@ func init() {
 			}
 			return out
 		},
-		Rule: "rates {8 kbit/s, 1 Mbit/s} x bursts {1000, 8000 B} x queue sizes {2000, 50000 B} x every arrival script of 3 (thorough 4) datagrams over gaps {0,1ms,99ms,101ms,1s} and sizes {0,1,B/2,B,B+1}, optionally with a concurrent Set(rate/4), Set(burst/4) or Set(burst/4) before any traffic followed by concurrent no-op Sets, Set(the rate in force, twice, on a backlogged filter with gaps of a third of the bucket's fill time) placed at every scheduling point, or with Close called right behind the last arrival while the loop may still be forwarding, or from a separate thread at any point of the arrivals; every pair of forwarded datagrams bounds an interval for which the byte count is compared with burst + rate x length",
+		Rule: "rates {8 kbit/s, 1 Mbit/s} x bursts {1000, 8000 B} x queue sizes {2000, 50000 B} x every arrival script of 3 (thorough 4) datagrams over gaps {0,1ms,99ms,101ms,1s} and sizes {0,1,B/2,B,B+1}, optionally with a concurrent Set(rate/4), Set(burst/4) or Set(burst/4) before any traffic followed by concurrent no-op Sets, Set(the rate in force, twice, on a backlogged filter with gaps of a third of the bucket's fill time) placed at every scheduling point, or with Close called right behind the last arrival while the loop may still be forwarding, or from a separate thread at any point of the arrivals; two concurrent arrival paths into a backlogged filter (ideal-bucket oracle; sender stalls allowed); every pair of forwarded datagrams bounds an interval for which the byte count is compared with burst + rate x length",
 		Assumptions: []string{"across a reconfiguration the larger rate/burst applies unless the change completed before the interval began (most lenient sound reading)",
 			"a discard counts as 'queue full' when queued bytes + packet length reach the configured queue size"}})
 }
